@@ -13,8 +13,8 @@ import (
 type belem struct {
 	kind string // text super block var tick setv
 	text string
-	name string // nested block name (kind block)
-	wrap string // "", if1, if0, for
+	name string   // nested block name (kind block)
+	wrap string   // "", if1, if0, for
 	inc  []*btmpl // kind inc: the chain (root ... member) of the template that is included; text = its file
 }
 
